@@ -30,15 +30,17 @@ pub fn check_case(ctx: &Ctx, case: &Case, with_cli: bool, t: &mut Tally) {
     let mut r = Rng::new(case.sub_seed);
     let minv = case.spec.min_nonzero();
     let maxv = case.spec.max_abs();
-    // scale factors keeping every value 0 or >= 0.01 kWh and below 1e7 (the property's domain)
+    // scale factors keeping every value 0 or >= 0.01 kWh (the property's domain) and below 1e7 (1e10 for powers of two)
     let mut cands: Vec<(f32, bool)> = vec![];
-    for j in [-3i32, -2, -1, 1, 2, 3, 4, 5, 6, 7, 8, 9, 10, 12, 14] {
+    for j in [-3i32, -2, -1, 1, 2, 3, 4, 5, 6, 7, 8, 9, 10, 12, 14, 17, 20] {
         cands.push((2f32.powi(j), true));
     }
     for c in [3.0f32, 0.1, 1000.0, 7.5, 0.3, 30000.0] {
         cands.push((c, false));
     }
-    cands.retain(|(c, _)| minv * c >= 0.01 && maxv * c < 1e7);
+    // (powers of two are exact in f32 whatever the magnitude: they may take the annual sums beyond 2^24 kWh, where
+    // one f32 unit of rounding is a whole kWh and any absolute tolerance of the library is overtaken)
+    cands.retain(|(c, p2)| minv * c >= 0.01 && maxv * c < if *p2 { 1e10 } else { 1e7 });
     if cands.is_empty() {
         t.count("no_admissible_scale_factor");
         return;
